@@ -85,3 +85,106 @@ Theorem wiring_correct_interface_id_dedup_refuted :
   end.
 Proof. pose proof dedup_refutes as H. destruct (encoded ops_dedup true) as [[[dec spec] dd]|]; auto. destruct H as [-> H]. split; [discriminate | exact H]. Qed.
 Print Assumptions wiring_correct_interface_id_dedup_refuted.
+
+(** * The emission order: theorems about the MODEL of [CompositionGraphEncoder::toposort]
+    ([EncodeModel.topo_phase1] = the reverse-index DFS with an explicit stack; [ToposortPhase2.phase2] = the
+    second phase as coded: petgraph's [Dfs::next] over [Reversed(graph)], [move_to] per element, the [cycle] flag).
+    They discharge the hypothesis [topo_orderb g ord = true] of [wiring_correct] for the order the model of the code
+    computes, for every graph satisfying the C06 invariant. (Per run, ./check C02 still compares the order observed in
+    the real output with the model's.) *)
+From Coq Require Import Permutation.
+From WacV Require Import GraphInv WiringOrder ToposortDfs ToposortPhase1 ToposortPhase2 ToposortMain.
+
+(** (c1) phase one enumerates exactly the live nodes, each once; the fuel of the model suffices (any larger fuel
+    gives the same answer, i.e. the out-of-fuel exit is never taken); it fails only at a self loop *)
+Theorem toposort_phase1_perm : forall u g, Inv u g ->
+  (forall f, dfs_fuel g <= f -> topo_phase1_fuel g f = topo_phase1 g) /\
+  (forall ord, topo_phase1 g = Some ord -> Permutation ord (node_ids g) /\ NoDup ord) /\
+  (topo_phase1 g = None -> exists e, In e (edges g) /\ esrc e = etgt e).
+Proof. exact ToposortMain.toposort_phase1_perm. Qed.
+Print Assumptions toposort_phase1_perm.
+
+(** (c2) acyclic graph (alias, argument and dependency edges alike; argument edges can close cycles, so this is a
+    hypothesis): the order is a topological order and the second phase, as coded, reports no cycle *)
+Theorem toposort_acyclic_is_topo : forall u g, Inv u g -> ~ has_cycle g ->
+  exists ord, toposort g = Some ord /\ topo_orderb g ord = true /\ Topo g ord /\ toposort_full g = inl ord.
+Proof. exact ToposortMain.toposort_acyclic_is_topo. Qed.
+Print Assumptions toposort_acyclic_is_topo.
+
+Theorem toposort_ranked_is_topo : forall u g rk, Inv u g -> RankedBy g rk ->
+  exists ord, toposort g = Some ord /\ topo_orderb g ord = true /\ Topo g ord /\ toposort_full g = inl ord.
+Proof. exact ToposortMain.toposort_ranked_is_topo. Qed.
+Print Assumptions toposort_ranked_is_topo.
+
+(** (c3) success implies acyclicity and the hypothesis of [wiring_correct]; a cycle is always reported; the order
+    check by which [EncodeModel.toposort] renders the second phase agrees with the second phase as coded *)
+Theorem toposort_cycle_detected : forall u g, Inv u g ->
+  (forall ord, toposort g = Some ord -> topo_orderb g ord = true /\ ~ has_cycle g /\ RankedBy g (fun n => index_of n ord)) /\
+  (toposort g = None <-> has_cycle g) /\
+  toposort g = match toposort_full g with inl ord => Some ord | inr _ => None end.
+Proof. exact ToposortMain.toposort_cycle_detected. Qed.
+Print Assumptions toposort_cycle_detected.
+
+(** (c4) [wiring_correct] for the order the two-phase model of the code returns, and for [encode_model] itself *)
+Theorem wiring_correct_real_order : forall e u g dc tau ord st names,
+  Inv u g -> EncInv e u g -> toposort_full g = inl ord ->
+  encode_with_order e u g dc tau ord = ROk (st, names) ->
+  (forall p, In p (e_dedup st) -> fst p = snd p) ->
+  option_map (erase_defs (def_names e g)) (decode_wiring names (e_log st)) = Some (wiring_spec e u g dc ord).
+Proof. exact ToposortMain.wiring_correct_real_order. Qed.
+Print Assumptions wiring_correct_real_order.
+
+Theorem wiring_correct_encode_model : forall e u g dc tau st names,
+  Inv u g -> EncInv e u g ->
+  encode_model e u g dc tau = ROk (st, names) ->
+  (forall p, In p (e_dedup st) -> fst p = snd p) ->
+  exists ord, toposort_full g = inl ord /\ Permutation ord (node_ids g) /\ ~ has_cycle g /\
+    option_map (erase_defs (def_names e g)) (decode_wiring names (e_log st)) = Some (wiring_spec e u g dc ord).
+Proof. exact ToposortMain.wiring_correct_encode_model. Qed.
+Print Assumptions wiring_correct_encode_model.
+
+Theorem encode_model_cycle : forall e u g dc tau, Inv u g -> has_cycle g -> encode_model e u g dc tau = RErr ECycle.
+Proof. exact ToposortMain.encode_model_cycle. Qed.
+Print Assumptions encode_model_cycle.
+
+(** (c5) FULL statement of the comment on [toposort] ("... resulting in the returned topologically-sorted set to be
+    in index order for independent nodes"):
+      forall g ord a b, toposort g = Some ord -> live a -> live b -> a < b -> ~ reach a b -> ~ reach b a ->
+                        index_of a ord < index_of b ord.
+    It is FALSE of the faithful model (a defect of the comment, not of property C02): instantiations 0, 1, 2, an
+    alias 3 of an export of 2 passed as argument to 0; the order is 1, 2, 3, 0 although 0 and 1 are independent.
+    The true weaker statements are proved for C16 (proofs/ToposortOrder.v). *)
+Theorem toposort_index_order_for_independent_refuted :
+  exists ops a b ord, let g := run w_universe ops in
+    toposort_full g = inl ord /\ live g a = true /\ live g b = true /\ a < b /\
+    ~ reach g a b /\ ~ reach g b a /\ index_of b ord < index_of a ord.
+Proof. exact ToposortMain.index_order_refuted. Qed.
+Print Assumptions toposort_index_order_for_independent_refuted.
+
+(** (c6) end to end over API histories: for EVERY graph built through the API (C06 [reach_inv]; [EncInv] from C01
+    [enc_inv_reachable]), whenever the model of [encode], its own [toposort] included, succeeds, the log decodes to the
+    wiring specified for the order [toposort] computed (a permutation of the live nodes; the graph is acyclic); a graph
+    with a cycle gets the cycle error *)
+From WacV Require Import ValidSpec ValidEncInv ToposortReach.
+Theorem wiring_correct_reachable : forall e u ops dc tau st names,
+  UnivOK e u -> DefsSingle (run u ops) ->
+  encode_model e u (run u ops) dc tau = ROk (st, names) ->
+  (forall p, In p (e_dedup st) -> fst p = snd p) ->
+  exists ord, toposort_full (run u ops) = inl ord /\ Permutation ord (node_ids (run u ops)) /\ ~ has_cycle (run u ops) /\
+    option_map (erase_defs (def_names e (run u ops))) (decode_wiring names (e_log st))
+    = Some (wiring_spec e u (run u ops) dc ord).
+Proof. exact ToposortReach.wiring_correct_reachable. Qed.
+Print Assumptions wiring_correct_reachable.
+
+Theorem encode_reachable_cycle : forall e u ops dc tau,
+  has_cycle (run u ops) -> encode_model e u (run u ops) dc tau = RErr ECycle.
+Proof. exact ToposortReach.encode_reachable_cycle. Qed.
+Print Assumptions encode_reachable_cycle.
+
+(** non-vacuity of the cycle clauses: a reachable graph with a cycle (an instantiation receives an alias of its own
+    export); phase one enumerates it, phase two as coded answers [Err(0)], the encoder model answers the cycle error *)
+Example toposort_cycle_detected_nonvacuous :
+  let g := run w_universe ops_cycle in
+  has_cycle g /\ topo_phase1 g = Some [1; 0] /\ toposort_full g = inr (Some 0) /\ toposort g = None /\
+  encode_model w_env w_universe g true w_tau = RErr ECycle.
+Proof. exact cycle_instance. Qed.
